@@ -224,6 +224,12 @@ def replay_states(states, variant="float", stop_after=None) -> Out:
                 o.note(f"C04/reject_intact_violated/{ev['op']}_{last['cause']}", f"{ev_str(ev)} rejected ({raised}) but " +
                        ("book changed " if after["book"] != before["book"] else "") + ("positions changed" if after["pos"] != before["pos"] else ""))
                 stop = True
+                if is_trade and after["book"] != before["book"]:
+                    # the visible book shrinks by exactly the amounts FILLED: a rejected order fills nothing (C15's own clause, too)
+                    o.count("book_shrinks_by_fills_until_refresh")
+                    viol(entry, "book_shrinks_by_fills_until_refresh", cls + "_rejected_" + last["cause"],
+                         f"{ev_str(ev)} was rejected ({raised}) and filled nothing, yet the visible book changed: "
+                         f"{[k for k in after['book'] if after['book'][k] != before['book'][k]]}", j)
             if stop:
                 break
             continue
